@@ -48,3 +48,21 @@ package dagsync
 //@   property C15 C14
 //@   requires subOK(s)
 //@   shutdown closing
+
+// The event distributor (C14). Per loop iteration: an event received is sent
+// exactly once to every registered channel, in registration order, and the list
+// is unchanged; a registration appends; a removal closes exactly that channel
+// once and removes exactly one entry; when the input is closed every registered
+// channel is closed once and the distributor returns.
+// ASSUMED about other threads: a channel sent on addEventChan is open and not yet
+// registered (OnSyncFinished creates a new queue for every call).
+//@ spec func chansOK(l val) bool = forall(a, 0, len(l), l[a] != nil && !closed(l[a])) && forall(a, 0, len(l), forall(b, 0, a, l[a] != l[b]))
+//@ func (*Subscriber).distributeEvents
+//@   property C14
+//@   requires subOK(s)
+//@   mayblock send:ch
+//@   at recv addEventChan: assume v != nil && !closed(v) && forall(a, 0, len(outEventsChans), outEventsChans[a] != v)
+//@   loop 1: invariant chansOK(outEventsChans)
+//@   loop 2: invariant chansOK(outEventsChans) && rangeindex < len(outEventsChans) && forall(a, 0, rangeindex + 1, closed(outEventsChans[a])) && forall(a, rangeindex + 1, len(outEventsChans), !closed(outEventsChans[a]))
+//@   loop 3: invariant chansOK(outEventsChans) && rangeindex < len(outEventsChans)
+//@   loop 4: invariant chansOK(outEventsChans) && rangeindex < len(outEventsChans) && forall(a, 0, rangeindex + 1, outEventsChans[a] != ch)
